@@ -1,5 +1,5 @@
 (* C10 / PolFile: proofs about the file-language model (stdlib style). *)
-Require Import String Ascii List ZArith NArith QArith Bool Lia ZifyBool Permutation.
+Require Import String Ascii List ZArith NArith QArith Qcanon Bool Lia ZifyBool Permutation.
 Require Import MPSV.PolFile.Chars MPSV.PolFile.DecRatModel MPSV.PolFile.PolModel.
 Import ListNotations.
 Local Open Scope char_scope.
@@ -246,4 +246,20 @@ Proof.
   - unfold strip_comment. rewrite take_until_app.
     + unfold tokens. induction lead; simpl; auto.
     + induction lead; simpl; auto.
+Qed.
+
+(* ------------------------------------------------------------------ canonical storage in the string API *)
+
+Lemma api_coeff_raw_canonical s :
+  snd (api_coeff_raw s) <> 0%Z -> raw_canonical (api_coeff_raw s) = true.
+Proof.
+  unfold api_coeff_raw.
+  set (X := match equiv_rational_string s with
+            | Some s0 => match mpq_str_raw s0 with Some nd => nd | None => (0%Z, 1%Z) end
+            | None => (0%Z, 1%Z) end).
+  destruct X as [n d]. unfold canonicalize_raw, q_of_raw.
+  assert (K : forall q, raw_canonical (Qnum (Qred q), Z.pos (Qden (Qred q))) = true).
+  { intro q. unfold raw_canonical. pose proof (proj1 (Qred_iff (Qred q)) (Qred_involutive q)) as G.
+    rewrite G. reflexivity. }
+  destruct d; cbn [snd]; intro H; [congruence | apply K | apply K].
 Qed.
